@@ -186,6 +186,62 @@ func c20Scenario(c *Ctx, name string, oneZone bool, T int, payloadLen int, prolo
 	}
 }
 
+// c20EncodedOrigins: concurrent fetches of different keys whose origin answers in the encodings pike decodes itself
+// (zst, lz4, snz): the decoders must not share state between requests.
+func c20EncodedOrigins(c *Ctx, name string, b vsched.Bounds) Sched {
+	cfg := env.BasicConfig(config.CacheConfig{})
+	cfg.Servers[0].CompressMinLength = "1kb"
+	encOf := func(path string) string {
+		switch path[1] {
+		case 'z':
+			return "zst"
+		case 'l':
+			return "lz4"
+		}
+		return "snz"
+	}
+	return Sched{
+		Name:   name,
+		Bounds: b,
+		Setup: func() ([]func(), func(*vsched.Exec) *vsched.Violation, func() string) {
+			e := getEnv(cfg, "c20enc")
+			freshCaches(cfg)
+			vtime.Set(vtime.Base)
+			vsched.ClockStart = vtime.Base
+			e.Respond = func(oc *env.OriginCall) env.OriginResp {
+				r := env.Cacheable(oc, 60, c20Payload(300))
+				enc := encOf(oc.Path)
+				r.Body = refEncode(enc, r.Body)
+				r.Header.Set("Content-Encoding", enc)
+				return r
+			}
+			e.Events()
+			plan := [][]string{{"/z1", "/l1", "/z1"}, {"/z2", "/s1", "/z2"}, {"/l2", "/s2", "/z1"}}
+			var bodies []func()
+			for i, uris := range plan {
+				i, uris := i, uris
+				bodies = append(bodies, func() {
+					for j, u := range uris {
+						e.Do(env.Req{URI: u, Rid: fmt.Sprintf("t%d.%d", i, j)})
+					}
+				})
+			}
+			var an *analysis
+			check := func(x *vsched.Exec) *vsched.Violation {
+				an = analyze(e.Events())
+				if x.Deadlock || x.Livelock || len(x.Panics) > 0 {
+					return nil
+				}
+				if v := bodyCheck(an, c20Payload(300)); v != nil {
+					return v
+				}
+				return an.labelTruth()
+			}
+			return bodies, check, func() string { return an.summary() }
+		},
+	}
+}
+
 // c20NoHealthyServer: the real proxy in front of an upstream none of whose servers is reachable: concurrent
 // requests all get their own 5xx answer (the error path shares package-level values between requests).
 func c20NoHealthyServer(c *Ctx, name string, b vsched.Bounds) Sched {
@@ -285,6 +341,7 @@ func init() {
 		}, nil, vsched.Bounds{Preempt: pre, Tick: 0, Data: -1, Total: -1}))
 		// the whole of main.update() — including the upstream registry, which the scenarios above leave out because the
 		// scripted origin lives there — racing two requests, over a real loopback origin (the scenario of C16, here in the race build)
+		c.RunSched(c20EncodedOrigins(c, "fetches-from-zst-lz4-snz-origins", vsched.Bounds{Preempt: pre, Tick: 0, Data: -1, Total: -1}))
 		c.RunSched(c20NoHealthyServer(c, "no-healthy-server-3-requests", vsched.Bounds{Preempt: pre, Tick: 0, Data: -1, Total: -1}))
 		procEnv = nil
 		c.RunSched(c16Conc(c, "full-update-vs-requests", vsched.Bounds{Preempt: pre, Tick: 0, Data: -1, Total: -1}))
